@@ -139,7 +139,7 @@ impl RustDocument {
             return;
         }
 
-        let abbreviation = make_abbreviated_namespace(url, &self.namespaces);
+        let abbreviation = make_namespace_prefix(url, &self.namespaces);
 
         let rust_mod_name = create_mod_name_for_namespace(&abbreviation);
         let ns = Rc::new(Namespace {
@@ -180,7 +180,7 @@ impl RustDocument {
                 .find(|ns| ns.namespace == namespace)
                 .cloned()
                 .unwrap_or_else(|| {
-                    let abbreviation = make_abbreviated_namespace(namespace, &self.namespaces);
+                    let abbreviation = make_namespace_prefix(namespace, &self.namespaces);
                     let rust_mod_name = create_mod_name_for_namespace(&abbreviation);
 
                     Rc::new(Namespace {
@@ -327,6 +327,22 @@ where
 
         Ok(())
     }
+}
+
+/// The abbreviation of a namespace, for use as its XML prefix. The prefix `xml` is reserved: it is
+/// bound to the XML namespace and to nothing else, so a namespace that abbreviates to it gets
+/// `nsxml` (numbered when that is taken as well).
+fn make_namespace_prefix(namespace: &str, existing_namespaces: &[Rc<Namespace>]) -> String {
+    let abbreviation = make_abbreviated_namespace(namespace, existing_namespaces);
+    if abbreviation != "xml" {
+        return abbreviation;
+    }
+
+    let is_free = |candidate: &String| existing_namespaces.iter().all(|ns| ns.abbreviation != *candidate);
+    std::iter::once("nsxml".to_string())
+        .chain((1usize..).map(|n| format!("nsxml{n}")))
+        .find(is_free)
+        .unwrap_or(abbreviation)
 }
 
 fn make_abbreviated_namespace(namespace: &str, existing_namespaces: &[Rc<Namespace>]) -> String {
